@@ -264,6 +264,10 @@ func (k *c39Contract) writeCase(sizes []int) string {
 	for {
 		t, b, err := c.ReadMessage()
 		if err != nil {
+			if ne, ok := err.(net.Error); ok && ne.Timeout() {
+				<-res
+				return "hang" // safety deadline on an overloaded machine: not judged
+			}
 			break
 		}
 		if t != websocket.BinaryMessage {
@@ -301,6 +305,7 @@ func (k *c39Contract) readCase(msgs []c39Msg, r int) string {
 	type rd struct {
 		data  []byte
 		reads int
+		hang  bool
 	}
 	res := make(chan rd, 1)
 	k.fn = func(c net.Conn) {
@@ -312,6 +317,9 @@ func (k *c39Contract) readCase(msgs []c39Msg, r int) string {
 			out.reads++
 			out.data = append(out.data, buf[:n]...)
 			if err != nil {
+				if ne, ok := err.(net.Error); ok && ne.Timeout() {
+					out.hang = true
+				}
 				break
 			}
 		}
@@ -344,6 +352,9 @@ func (k *c39Contract) readCase(msgs []c39Msg, r int) string {
 	}
 	_ = c.WriteControl(websocket.CloseMessage, websocket.FormatCloseMessage(websocket.CloseNormalClosure, ""), time.Now().Add(30*time.Second))
 	out := <-res
+	if out.hang {
+		return "hang"
+	}
 	if !bytes.Equal(out.data, want) {
 		return fmt.Sprintf("Read returned %d bytes %.40q, the binary messages before the text message hold %d bytes %.40q", len(out.data), out.data, len(want), want)
 	}
@@ -434,14 +445,18 @@ func init() {
 			}
 			nc := 0
 			for _, n := range wsizes {
-				if msg := k.writeCase([]int{n}); msg != "" {
+				if msg := k.writeCase([]int{n}); msg == "hang" {
+					c.Rep.Capped(fmt.Sprintf("write contract case %d hit the 60 s safety deadline (not judged)", n))
+				} else if msg != "" {
 					c.Rep.Add(explore.Violation{Key: "write-contract", Msg: fmt.Sprintf("connection Write of %d bytes: %s", n, msg), Replay: map[string]any{"desc": fmt.Sprintf("write %d", n)}})
 				}
 				nc++
 			}
 			for _, a := range pairs {
 				for _, b := range pairs {
-					if msg := k.writeCase([]int{a, b}); msg != "" {
+					if msg := k.writeCase([]int{a, b}); msg == "hang" {
+						c.Rep.Capped(fmt.Sprintf("write contract case %d,%d hit the 60 s safety deadline (not judged)", a, b))
+					} else if msg != "" {
 						c.Rep.Add(explore.Violation{Key: "write-contract", Msg: fmt.Sprintf("connection Writes of %d then %d bytes: %s", a, b, msg), Replay: map[string]any{"desc": fmt.Sprintf("write %d %d", a, b)}})
 					}
 					nc++
@@ -463,7 +478,9 @@ func init() {
 							msgs = append([]c39Msg{{Data: []byte{}}}, msgs...)
 						}
 						msgs = append(msgs, c39Msg{Text: true, Data: []byte{0xC0, 0x00, 0xC0, 0x00}}, c39Msg{Data: []byte{0xC0, 0x00}})
-						if msg := k.readCase(msgs, r); msg != "" {
+						if msg := k.readCase(msgs, r); msg == "hang" {
+							c.Rep.Capped(fmt.Sprintf("read contract case a=%d r=%d variant=%d hit the 60 s safety deadline (not judged)", a, r, variant))
+						} else if msg != "" {
 							c.Rep.Add(explore.Violation{Key: "read-contract:text-message", Msg: fmt.Sprintf("binary message of %d bytes (variant %d) then a text message, read buffer %d: %s", a, variant, r, msg), Replay: map[string]any{"desc": fmt.Sprintf("read a=%d r=%d variant=%d", a, r, variant)}})
 						}
 						nc++
